@@ -423,6 +423,12 @@ func Exec(c Case) (res core.Result) {
 		}
 	}()
 	h, err := c.setup(db)
+	if err != nil && leaseDur.Round(time.Second) < time.Second {
+		// a lease time that is 0 seconds on the wire: the plugin may refuse it at start-up (the
+		// property speaks about the configured lease time of configurations that are accepted)
+		res.Classes = []string{"sub-second-lease-refused"}
+		return
+	}
 	if err != nil {
 		res.Viol = core.Violate(c.Mode+"/setup-rejects-valid-config", "Setup4(%s, %s..+%d, %s): %v", db, u32ip(c.Start), c.N, c.Lease, err)
 		return
